@@ -28,18 +28,19 @@ Vocabulary of the generated terms (coq/SrcP2pLib.v, LinAlgBModel.v, Num.v):
   * a fixed-size matrix local (Eigen::Matrix<Scalar,r,c>) -> its r*c entries (Python side), printed as the list of its rows;
     Identity() -> n_one / nzero; m(i,j) = e with compile-time i, j; m.block(0,0,p,q) /= s  (also *=) entry by entry;
     a dynamic matrix local takes the value assigned to it;
-  * the member leastSquares_ (class LeastSquares<Scalar>) is an ABSTRACT object of type Ls: each method called on it becomes
-    a function argument F_<method> : Ls -> args -> Ls * result (Ls for void methods); a reference bound to
-    leastSquares_.getJ() / getY() is a view: `J(i, j) = e` becomes F_getJ_set ls i j e, `Y(i) = e` becomes F_getY_set ls i e;
-    the default-constructed member of the constructor is the argument F_new : Ls;
+  * the member leastSquares_ (class LeastSquares<Scalar>) is an ABSTRACT object of type Ls: each method called on it is the
+    field F_<method> : Ls -> args -> Ls * result (Ls for void methods) of the argument M : LsMethods T Ls (record of
+    coq/SrcP2pLib.v; the methods are bound BY NAME and type: a method that is not a field, or another overload, is refused);
+    a reference bound to leastSquares_.getJ() / getY() is a view: `J(i, j) = e` becomes F_getJ_set M ls i j e, `Y(i) = e`
+    becomes F_getY_set M ls i e; the default-constructed member of the constructor is F_new M;
   * a const accessor called on a parameter of another class (PreconditionedPointSet::get(), getPreconditioningMatrix()) is
     a free variable <parameter>_<accessor>;
   * `if (c)` needs a compile-time c (CARTESIAN_DIM == 2: the static constexpr members are evaluated through their
     initialisers down to the literals of PointTraits); only the taken branch is executed;
   * `for (size_t n = 0; n < K; ++n) body` with a run-time K whose body changes only the abstract member becomes
     fold_left (fun acc n => body) (seq 0 K) ls;   every statement-level value is let-bound.
-Signature of a generated definition: (Ls : Type), the F_ arguments sorted by name, the parameters in declaration order
-(unnamed ones dropped), the other free variables sorted by name (accessor variables, the member leastSquares_).
+Signature of a generated definition: (Ls : Type) (M : LsMethods T Ls), the parameters in declaration order (unnamed ones
+dropped), the other free variables sorted by name (accessor variables, the member leastSquares_).
 Result: (leastSquares_ after the call, returned value) — only the member for void methods / the constructor.
 Anything else raises Unsupported: the function is left out and reported for C05 only (fail closed)."""
 import os
@@ -67,7 +68,12 @@ CASTS = ("ImplicitCastExpr", "CXXStaticCastExpr", "CXXFunctionalCastExpr", "CSty
 NOOP_CASTS = ("LValueToRValue", "NoOp", "DerivedToBase", "UncheckedDerivedToBase", "ConstructorConversion",
               "FunctionToPointerDecay", "IntegralCast")
 CORR_FIELDS = {"sourcePointIndex": "fst", "targetPointIndex": "snd"}
-RESERVED = {"N", "T", "Ls", "fst", "snd", "nth", "length", "seq", "fold_left", "list", "nat", "bool", "true", "false", "acc",
+# the methods of LeastSquares<Scalar> the generated terms may use = the fields of the record LsMethods of coq/SrcP2pLib.v
+# (bound BY NAME: a call of any other method, or of another overload, is refused)
+LS_METHODS = {"F_new": "Ls", "F_setEstimateSize": "Ls -> nat -> Ls", "F_setDataSize": "Ls -> nat -> Ls * bool",
+              "F_getJ_set": "Ls -> nat -> nat -> T -> Ls", "F_getY_set": "Ls -> nat -> T -> Ls",
+              "F_estimateUsingSVD": "Ls -> Ls * (list T)", "F_setPreconditionner": "Ls -> (list (list T)) -> Ls"}
+RESERVED = {"N", "T", "Ls", "M", "fst", "snd", "nth", "length", "seq", "fold_left", "list", "nat", "bool", "true", "false", "acc",
             "vget", "mget", "eig_dot", "Some", "None", "map", "fun", "let", "in", "if", "then", "else", "match", "end"}
 
 HEAD = """(* GENERATED by translate/tr_C05_p2p.py from the clang AST of the current sources
@@ -276,10 +282,13 @@ class Exec:
         return classify(ty, self.aliases)
 
     def farg(self, name, cty):
-        if name in self.fargs and self.fargs[name] != cty:
-            raise Unsupported("%s used at two different types" % name)
+        """a method of the abstract solver object: the field `name` of the record M : LsMethods Ls"""
+        if name not in LS_METHODS:
+            raise Unsupported("LeastSquares::%s is not a method the solver model offers (LsMethods, coq/SrcP2pLib.v)" % name[2:])
+        if LS_METHODS[name] != cty:
+            raise Unsupported("LeastSquares::%s used at type %s, the solver model offers %s" % (name[2:], cty, LS_METHODS[name]))
         self.fargs[name] = cty
-        return name
+        return "(%s M)" % name if cty != "Ls" else "(%s M)" % name
 
     def freevar(self, name, cty):
         if name in self.free:
@@ -643,14 +652,14 @@ class Exec:
         rc = self.cls(qtype(n))
         if rc is None:
             raise Unsupported("result type %s of %s" % (norm_type(qtype(n)), nm))
-        call = "(F_%s %s%s)" % (nm, obj.term, "".join(" " + t for t, _ in vals))
         aty = "".join(" -> " + t for _, t in vals)
         if rc[0] == "VOID":
-            self.farg("F_" + nm, "Ls%s -> Ls" % aty)
-            self.write_obj(loc, call)
+            head = self.farg("F_" + nm, "Ls%s -> Ls" % aty)
+            self.write_obj(loc, "(%s %s%s)" % (head, obj.term, "".join(" " + t for t, _ in vals)))
             return Val("VOID")
         rty = self.coq_type(rc)
-        self.farg("F_" + nm, "Ls%s -> Ls * %s" % (aty, rty))
+        head = self.farg("F_" + nm, "Ls%s -> Ls * %s" % (aty, rty))
+        call = "(%s %s%s)" % (head, obj.term, "".join(" " + t for t, _ in vals))
         c = self.bind("call", call)
         self.write_obj(loc, "(fst %s)" % c)
         return self.of_term(rc, "(snd %s)" % c)
@@ -1046,16 +1055,15 @@ def translate(unit, tag_re, scalar, coq_name, meth, npar, first):
     outs = ex.run(decl)
     fargs = sorted(ex.fargs.items())
     free = sorted(ex.free.items())
-    binders = ["(Ls : Type)"] + ["(%s : %s)" % (n, t) for n, t in fargs] + ["(%s : %s)" % p for p in ex.params] + \
-              ["(%s : %s)" % (n, t) for n, t in free]
+    binders = ["(Ls : Type)", "(M : LsMethods T Ls)"] + ["(%s : %s)" % p for p in ex.params] + ["(%s : %s)" % (n, t) for n, t in free]
     rty = " * ".join(t for _, t, _ in outs)
     if len(outs) > 1:
         rty = "(%s)%%type" % rty
     body = "".join("  let %s := %s in\n" % (n, t) for n, t in ex.lets)
     res = outs[0][0] if len(outs) == 1 else "(%s)" % ", ".join(t for t, _, _ in outs)
     text = "Definition %s %s : %s :=\n%s  %s." % (coq_name, " ".join(binders), rty, body, res)
-    comment = "arguments: Ls, %s\n   result: %s" % (", ".join([n for n, _ in fargs] + [n for n, _ in ex.params] + [n for n, _ in free]),
-                                                    ", ".join(w for _, _, w in outs))
+    comment = "arguments: Ls, M (methods used: %s), %s\n   result: %s" % (
+        ", ".join(n for n, _ in fargs) or "-", ", ".join([n for n, _ in ex.params] + [n for n, _ in free]), ", ".join(w for _, _, w in outs))
     return text, comment
 
 
